@@ -27,9 +27,9 @@ type Controller struct {
 	cond    *sync.Cond
 	seq     int
 	events  []Event
-	gated   map[string]bool            // point -> park there
-	parked  map[parkKey]chan struct{}  // currently parked
-	open    map[parkKey]int            // pre-released passes (release before arrival)
+	gated   map[string]bool           // point -> park there
+	parked  map[parkKey]chan struct{} // currently parked
+	open    map[parkKey]int           // pre-released passes (release before arrival)
 	ActorOf func(point string, kv []interface{}) (actor string, info string)
 	gids    map[int64]string
 	free    bool // when set nobody parks any more
